@@ -115,7 +115,8 @@ class Fold:
       events:  list of dict(kind='call'|'store', callee/target, obj, args, guards, node)
     """
 
-    def __init__(self, func, call=None, atom=None, record_calls=None, inline=None, opaque_types=None, snap=None):
+    def __init__(self, func, call=None, atom=None, record_calls=None, inline=None, opaque_types=None, snap=None, mutators=None):
+        self.mutators = mutators              # regex of member functions that change their (local) object: the object gets a new version
         self.opaque_types = opaque_types      # regex: locals of these types stay named atoms (not folded)
         self.f = func
         self.call_hook = call
@@ -484,6 +485,13 @@ class Fold:
         v = self.builtin(n, callee, k, obj, args, env)
         if self.record_calls and re.search(self.record_calls, callee):
             self.event({"kind": "call", "callee": callee, "obj": obj, "args": args, "node": n, "value": v}, env)
+        if self.mutators and k == "mcall" and n.get("obj") is not None and re.search(self.mutators, callee):
+            on = unwrap(n["obj"])
+            if on.get("k") == "ref" and on.get("dk") in ("local", "param") and not isinstance(obj, Matrix):
+                try:
+                    env[on["decl"]] = F("mut_" + callee.split("::")[-1])(self.scalarize(obj), *[self.scalarize(a) for a in args])
+                except Exception:
+                    env[on["decl"]] = F("mut_" + callee.split("::")[-1])(self.scalarize(obj), S("arg@%s" % n["id"]))
         return v
 
     # ------------------------------------------------------------------ inlining of local helpers
@@ -693,6 +701,21 @@ class Fold:
                 return F(short)(a[0])
             if short in ("min", "max") and len(a) == 2:
                 return F(short)(a[0], a[1])
+            if short == "accumulate" and len(a) in (3, 4) and n["k"] == "call":
+                its = [unwrap(x) for x in n["args"][:2]]
+                ends = [(x.get("callee") or "").split("::")[-1] if x.get("k") == "mcall" else None for x in its]
+                lam = getattr(self, "lambdas", {}).get(str(a[3])) if len(a) == 4 else None
+                if ends == ["begin", "end"] and show(unwrap(its[0]["obj"])) == show(unwrap(its[1]["obj"])) and (len(a) == 3 or lam is not None) \
+                        and not isinstance(a[2], (tuple, Matrix)):
+                    lid = "acc%s" % n["id"]
+                    elem, acc = S("elem@%s" % lid), S("acc@%s" % lid)
+                    r = acc + elem if lam is None else self.eval_lambda(lam, [acc, elem], env)
+                    if r is not None and not isinstance(r, (tuple, Matrix)):
+                        term = sp.expand(r - acc)
+                        if acc not in term.free_symbols:
+                            self.loops = getattr(self, "loops", [])
+                            self.loops.append({"lid": lid, "node": n, "cond": None, "init": {}, "syms": {}, "range": self.ev(its[0]["obj"], env), "var": elem})
+                            return a[2] + F("SUM_" + lid)(term)
         if obj is not None and isinstance(obj, Matrix) and short == "normalize" and not args:
             on = unwrap(n["obj"])
             nv = obj / sqrt(sum(x * x for x in obj))
@@ -716,6 +739,8 @@ class Fold:
             return sp.eye(3)
         if short in ("UnitX", "UnitY", "UnitZ") and is_vec3(t):
             return Matrix([1 if short[-1] == c else 0 for c in "XYZ"])
+        if short == "Unit" and re.search(r"Matrix<double, 3, 1\b", callee or "") and len(args) == 1 and not isinstance(args[0], (tuple, Matrix)):
+            return Matrix([sp.KroneckerDelta(args[0], c) for c in range(3)])
         # opaque
         name = short
         if callee in ("std::make_unique", "std::make_shared") and n.get("callee_targs"):
@@ -1022,6 +1047,10 @@ class Fold:
                 tgt = unwrap(n["sub"])
             elif k == "opcall" and n["op"] in ("=", "+=", "-=", "*=", "/=", "++", "--"):
                 tgt = unwrap(n["args"][0])
+            elif k == "mcall" and getattr(self, "mutators", None) and n.get("obj") is not None and re.search(self.mutators, n.get("callee") or ""):
+                tgt = unwrap(n["obj"])
+                if tgt.get("k") != "ref":
+                    tgt = None
             if tgt is None:
                 continue
             # x.y() = ..., v(i) = ...: the base object is modified
